@@ -119,7 +119,7 @@ func (d *driver) behaviour(steps int, r int) {
 	d.node = d.root
 	poolAssets := [][2]uint64{{1, 1}, {1, 2}, {1, 3}, {2, 4}, {2, 2}, {2, 3}}
 	if f.V.LowT1 { // keep pool 1 short of its first transit asset: cross-pool borrows from pool 1 bridge through the second one
-		poolAssets = [][2]uint64{{1, 1}, {1, 1}, {1, 3}, {2, 4}, {2, 2}, {2, 3}}
+		poolAssets = [][2]uint64{{1, 1}, {1, 1}, {1, 1}, {1, 3}, {2, 4}, {2, 2}, {2, 3}}
 	}
 	killLeft := 0
 	pairsOf := func(asset, pool uint64) []uint64 {
@@ -132,6 +132,7 @@ func (d *driver) behaviour(steps int, r int) {
 			d.do("FundReserve", M{"u": "u1", "asset": int64(a.ID), "da": int64(a.ID), "amt": f.V.Fund / 50})
 		}
 	}
+	d.preface(r)
 	for s := 0; s < steps; s++ {
 		lends := k.GetAllLend(e.Ctx)
 		borrows := k.GetAllBorrow(e.Ctx)
@@ -157,7 +158,7 @@ func (d *driver) behaviour(steps int, r int) {
 		}
 		w := []int{10, 5, 8, 3, 14, 4, 5, 8, 8, 3, 2, 3, 2, 12, 4, 5, 7, 1}
 		if f.V.LowT1 {
-			w[4], w[5] = 20, 8
+			w[4], w[5], w[15] = 20, 8, 10
 		}
 		if len(myL) == 0 {
 			w[1], w[2], w[3], w[4] = 0, 0, 0, 0
@@ -187,10 +188,24 @@ func (d *driver) behaviour(steps int, r int) {
 			d.do("CloseLend", M{"u": u, "lend": int64(l.ID)})
 		case 4: // Borrow around the LTV boundary
 			l := myL[rng.Intn(len(myL))]
+			if f.V.LowT1 && rng.Intn(3) > 0 { // positions of pool 1's main asset: their cross-pool pair bridges through the second transit asset
+				for _, x := range myL {
+					if x.PoolID == 1 && x.AssetID == 1 && x.AvailableToBorrow.IsPositive() {
+						l = x
+					}
+				}
+			}
 			ps := pairsOf(l.AssetID, l.PoolID)
 			var pid uint64
 			if len(ps) > 0 {
 				pid = ps[rng.Intn(len(ps))]
+				if f.V.LowT1 && rng.Intn(4) > 0 { // more cross-pool borrows where the first transit asset is scarce
+					for _, q := range ps {
+						if d.pair(q).IsInterPool {
+							pid = q
+						}
+					}
+				}
 			}
 			ca := int64(l.AssetID)
 			if rng.Intn(10) == 0 || pid == 0 { // a pair of another asset of the same pool (probe: collateral asset mismatch)
@@ -281,6 +296,17 @@ func (d *driver) behaviour(steps int, r int) {
 			d.do("Price", M{"asset": int64(a.ID), "p": np})
 		case 15: // V2 liquidation: move prices just below / just above the position's threshold, then the message or the sweep
 			b := borrows[rng.Intn(len(borrows))]
+			if rng.Intn(2) == 0 { // prefer cross-pool (bridged) positions that are still open
+				var br []lendtypes.BorrowAsset
+				for _, x := range borrows {
+					if x.BridgedAssetAmount.Amount.IsPositive() && !x.IsLiquidated {
+						br = append(br, x)
+					}
+				}
+				if len(br) > 0 {
+					b = br[rng.Intn(len(br))]
+				}
+			}
 			switch rng.Intn(5) {
 			case 0, 1:
 				d.aim(b, 1.0, 1.12) // just unsafe
@@ -364,5 +390,88 @@ func (d *driver) aim(b lendtypes.BorrowAsset, lo, hi float64) {
 	}
 	if d.price(p.AssetOut)/PU != c[1] {
 		d.do("Price", M{"asset": int64(p.AssetOut), "p": c[1]})
+	}
+}
+
+// preface: a short scripted opening so that the rarer situations are present in every log (the seeded steps follow it)
+func (d *driver) preface(r int) {
+	f, e, k := d.f, d.e, d.e.App.LendKeeper
+	amt := d.amount() + 500
+	lastBorrow := func() (lendtypes.BorrowAsset, bool) {
+		bs := k.GetAllBorrow(e.Ctx)
+		if len(bs) == 0 {
+			return lendtypes.BorrowAsset{}, false
+		}
+		return bs[len(bs)-1], true
+	}
+	lendID := func(u string, asset, pool uint64) int64 {
+		for _, l := range k.GetAllLend(e.Ctx) {
+			if f.name(l.Owner) == u && l.AssetID == asset && l.PoolID == pool {
+				return int64(l.ID)
+			}
+		}
+		return 0
+	}
+	switch {
+	case f.V.LowT1:
+		// cross-pool borrow from pool 1 while pool 1 lacks its first transit asset: bridged through the second one; then a liquidation
+		// request with the ratio just below the applicable threshold (nothing may happen), just above it (seizure), and a closing bid
+		d.do("Lend", M{"u": "u1", "pool": int64(1), "asset": int64(1), "da": int64(1), "amt": amt})
+		p := d.pair(5)
+		l := d.ltvOf(p)
+		t2, _ := k.GetAssetRatesParams(e.Ctx, f.Assets[2].ID)
+		l2 := frac(t2.Ltv)
+		t1, _ := k.GetAssetRatesParams(e.Ctx, f.Assets[1].ID)
+		l1 := frac(t1.Ltv)
+		loan := pos(d.maxLoan(amt, p.AssetIn, p.AssetOut, []int64{l[0] * l2[0] * l1[1], l[1] * l2[1] * l1[0]}) - 1)
+		d.do("Borrow", M{"u": "u1", "lend": lendID("u1", 1, 1), "pair": int64(5), "ca": int64(1), "cin": amt, "la": int64(p.AssetOut), "loan": loan, "stable": false, "mis": false})
+		if b, ok := lastBorrow(); ok && b.PairID == 5 {
+			d.aim(b, 0.92, 1.0)
+			d.do("Liquidate", M{"u": "kp", "b": int64(b.ID)})
+			d.do("Tick", M{"dt": int64(6)})
+			d.aim(b, 1.0, 1.1)
+			if r%4 == 1 {
+				d.do("Liquidate", M{"u": "kp", "b": int64(b.ID)})
+			} else {
+				d.do("Tick", M{"dt": int64(6)})
+				d.do("Tick", M{"dt": int64(6)})
+			}
+			for _, a := range e.App.NewaucKeeper.GetAuctions(e.Ctx) {
+				d.do("Bid", M{"u": "kp", "auc": int64(a.AuctionId), "da": f.assetOfDenom(a.DebtToken.Denom), "amt": pos(i64(a.DebtToken.Amount) / 3)})
+				d.do("Tick", M{"dt": int64(600)})
+				d.do("Bid", M{"u": "kp", "auc": int64(a.AuctionId), "da": f.assetOfDenom(a.DebtToken.Denom), "amt": i64(a.DebtToken.Amount) + 5})
+			}
+		}
+	case r%4 == 2:
+		// several positions become unsafe at once; the sweep (batch 1..3) needs more than one block for them
+		p := d.pair(2)
+		for _, u := range f.V.Users {
+			d.do("Lend", M{"u": u, "pool": int64(1), "asset": int64(1), "da": int64(1), "amt": amt})
+			loan := pos(d.maxLoan(amt, p.AssetIn, p.AssetOut, d.ltvOf(p)) * 9 / 10)
+			d.do("Borrow", M{"u": u, "lend": lendID(u, 1, 1), "pair": int64(2), "ca": int64(1), "cin": amt, "la": int64(p.AssetOut), "loan": loan, "stable": false, "mis": false})
+		}
+		if b, ok := lastBorrow(); ok {
+			d.aim(b, 1.05, 1.5)
+			for n := 0; n < 7; n++ {
+				d.do("Tick", M{"dt": int64(6)})
+			}
+		}
+	case r%4 == 0:
+		// interest and lend rewards: a year passes on a well-used pool, then the positions are touched
+		d.do("Lend", M{"u": "u2", "pool": int64(1), "asset": int64(2), "da": int64(2), "amt": amt * 10})
+		d.do("Lend", M{"u": "u1", "pool": int64(1), "asset": int64(1), "da": int64(1), "amt": amt * 4})
+		p := d.pair(1)
+		loan := pos(d.maxLoan(amt*4, p.AssetIn, p.AssetOut, d.ltvOf(p)) * 8 / 10)
+		d.do("Borrow", M{"u": "u1", "lend": lendID("u1", 1, 1), "pair": int64(1), "ca": int64(1), "cin": amt * 4, "la": int64(p.AssetOut), "loan": loan, "stable": false, "mis": false})
+		d.do("Tick", M{"dt": int64(31557600)})
+		d.do("CalcInterest", M{"u": "u1"})
+		if b, ok := lastBorrow(); ok {
+			it := i64(b.InterestAccumulated.TruncateInt())
+			d.do("Repay", M{"u": "u1", "b": int64(b.ID), "da": int64(p.AssetOut), "amt": pos(it + loan/10)})
+			d.do("Tick", M{"dt": int64(15552000)})
+			d.do("CalcInterest", M{"u": "u2"})
+			d.do("Draw", M{"u": "u1", "b": int64(b.ID), "da": int64(p.AssetOut), "amt": pos(loan / 20)})
+			d.do("Deposit", M{"u": "u2", "lend": lendID("u2", 2, 1), "da": int64(2), "amt": int64(7)})
+		}
 	}
 }
